@@ -20,7 +20,8 @@ Fixpoint starts_with (p s : str) : bool :=
   | x :: p' => match s with [] => false | y :: s' => (x =? y) && starts_with p' s' end
   end.
 
-Definition ends_with (p s : str) : bool := starts_with (rev p) (rev s).
+(* s.endswith(p); rev_append is the linear-time reversal (List.rev is quadratic) *)
+Definition ends_with (p s : str) : bool := starts_with (rev_append p []) (rev_append s []).
 
 Definition is_nil {A} (l : list A) : bool := match l with [] => true | _ => false end.
 
